@@ -63,6 +63,12 @@ def verify_function(key, sources, scenario=None, prune=True):
     for n in c.loops:
         if n > len(eng.loop_ids) and res.undecided_reason is None:
             res.undecided_reason = f"contract has an invariant for loop {n} but the function has {len(eng.loop_ids)} loops (contract out of date)"
+    if c.reads is not None and res.undecided_reason is None:
+        # read frame: the function's result can depend only on the heap locations it reads; every read is recorded by the engine
+        extra = sorted(r for r in eng.reads if r not in set(eng.expand_modifies(c.reads)) and not r.startswith("global."))
+        ob = eng.oblige(State(), z3.BoolVal(not extra), "read-frame", "declared", fn,
+                        text=f"heap locations read are among {sorted(c.reads)}" + (f"; also reads {extra}" if extra else ""))
+        ob.detail = f"reads outside the declared read frame: {extra}" if extra else ""
     res.obligations = eng.obligations
     if scenario is not None:
         for ob in res.obligations:
